@@ -135,11 +135,24 @@ class _Run:
         self.res = res
         self.log = EventLog(keep=bool(os.environ.get("VERIF_KEEP_LOG")))
         self.has_scrollable = False
+        self.shift_flag_diverged = False
+
+    def edit_flags_differ(self) -> bool:
+        """Edit keeps a 'shift the view to the cursor' flag that render(focus) sets: a render answered
+        from the cache does not update it, so the two trees can disagree about it (known finding)."""
+        import urwid  # noqa: PLC0415
+
+        for a, b in zip(all_nodes(self.tree), all_nodes(self.twin)):
+            if isinstance(a.w, urwid.Edit) and bool(a.w._shift_view_to_cursor) != bool(b.w._shift_view_to_cursor):  # noqa: SLF001
+                return True
+        return False
 
     def violate(self, clause, sig, msg=""):
         if self.has_scrollable and clause in ("C06.1", "C06.2", "C06.3", "C06.5"):
             # Scrollable / ScrollBar resolve and store their state inside render(); see known findings
             sig += " [tree-has-Scrollable]"
+        elif self.shift_flag_diverged and clause in ("C06.1", "C06.3"):
+            sig += " [edit-view-shift-flag-diverged-before-input]"
         self.res.violate(P, clause, sig, msg)
         self.log.add("violation", f"{clause} {sig}")
 
@@ -371,6 +384,9 @@ class _Run:
                     res.fault("gc_collect")
                     self.check_pool(i)
                     continue
+                if k in ("mouse", "key") and not self.shift_flag_diverged and self.edit_flags_differ():
+                    self.shift_flag_diverged = True
+                    res.probe("edit_view_shift_flag_diverged")
                 h_before = urwid.CanvasCache.hits
                 out_c = self.safe(self.tree, op, True)
                 hit = urwid.CanvasCache.hits > h_before
